@@ -1378,6 +1378,9 @@ Proof.
     + apply ids_below_app. split; [apply ids_below_one; lia|]. eapply ids_below_mono; [|exact Hp]. lia.
 Qed.
 
+Lemma dag_topo_all : forall items, Forall dag_topo_at items.
+Proof. intros items. apply Forall_forall. intros x _. apply dag_topo. Qed.
+
 Lemma dag_of_topo : forall t, topo 0 (dag_of t).
 Proof. intros t. apply (dag_topo t 0%nat []). intros p []. Qed.
 
@@ -1457,8 +1460,8 @@ Proof.
     split.
     { rewrite map_app, Hpa, A5, B5, A4. cbn [map pendl]. rewrite map_app.
       rewrite (pendl_shift (map (rec0 oc) r) (0 + tin (rec0 oc x))), map_map.
-      f_equal.
-      - destruct x; cbn [rec0 map]; try reflexivity. f_equal. unfold Hm, Ti, tin; cbn [rec0 ninfo leaf_info i_tinf]. lia.
+      apply (f_equal2 (@app Z)).
+      - destruct x; cbn [rec0 map]; reflexivity.
       - apply map_ext. intros z. unfold Ti. lia. }
     intros z Hz. rewrite !map_app, !max0_app, Hpa.
     pose proof (max0_nonneg (map (look ((acc ++ va) ++ vb)) (d_pend rb))) as Hp0.
@@ -1500,7 +1503,7 @@ Proof.
     rewrite Hlen' in C1, C2, C4, C5, C6.
     cbn [map] in C4. rewrite look_middle in C4. rewrite max0_cons in C4. change (max0 []) with 0 in C4.
     destruct (wf_child_task _ Hwf) as (items & e & Ech).
-    rewrite <- app_assoc in C1, C3, C4, C5, C6. cbn [app] in C1, C4, C5, C6.
+    rewrite <- app_assoc in C1, C4, C5, C6. cbn [app] in C1, C4, C5, C6.
     exists (v :: vc). cbn [dag d_rows d_outs d_pend dp r_leaf r_preds length]. fold b. fold v.
     set (rc := dag ch (S (length acc)) [(length acc, ECreate)]) in *.
     assert (Hv : 0 <= v) by (unfold v; lia).
@@ -1529,7 +1532,7 @@ Proof.
     cbn [leaves] in Hnn. apply nonnegl_app in Hnn. destruct Hnn as [Hi Hw].
     apply nonnegl_flat in Hi. inversion Hw as [|? ? Hw' _]; subst. cbn [snd] in Hw'.
     destruct (dp_items oc CSect items IH Hit Hi acc ins Hins) as (vi & I1 & I2 & I3 & I4 & I5 & I6).
-    destruct (dag_items_topo items (Forall_forall _ _ |> proj2 <| (fun x _ => dag_topo x)) (length acc) ins Hins) as (_ & Hids).
+    destruct (dag_items_topo items (dag_topo_all items) (length acc) ins Hins) as (_ & Hids).
     rewrite <- I2, <- app_length in Hids. apply ids_below_app in Hids. destruct Hids as [Hido Hidp].
     pose proof (max0_nonneg (map (look acc) ins)) as Hb.
     pose proof (serial_rec0_nonneg oc items Hi) as Hser.
